@@ -414,6 +414,15 @@ func cmdCheck(args []string) int {
 				if !st.Exhaustive {
 					merged.Exhaustive = false
 				}
+				for _, re := range st.RootErrors {
+					dup := false
+					for _, x := range merged.RootErrors {
+						dup = dup || x == re
+					}
+					if !dup {
+						merged.RootErrors = append(merged.RootErrors, re)
+					}
+				}
 				for k, v := range st.OKByKind {
 					merged.OKByKind[k] += v
 				}
@@ -671,12 +680,19 @@ func cmdCheck(args []string) int {
 		fmt.Println("HARNESS ERROR: a reported finding did not reproduce on replay (see stderr); no verdict")
 		return 2
 	}
+	for _, re := range merged.RootErrors {
+		fmt.Println("note: root skipped:", re)
+	}
 	if violations > 0 {
 		// reproduced violations stand even if some operation kind never succeeded (that is often their consequence)
 		if vacuous != "" {
 			fmt.Println("note:", vacuous)
 		}
 		return 1
+	}
+	if len(merged.RootErrors) > 0 {
+		fmt.Println("HARNESS ERROR: a root state could not be built on this tree and nothing else was found; no verdict")
+		return 2
 	}
 	if vacuous != "" {
 		fmt.Println("HARNESS ERROR:", vacuous)
